@@ -103,7 +103,7 @@ enum Op {
     Obs { x: usize, leaf: usize },
 }
 
-pub const N_FORMS: u32 = 10;
+pub const N_FORMS: u32 = 13;
 pub fn form_name(f: u32) -> &'static str {
     match f {
         0 => "c := s",
@@ -115,6 +115,9 @@ pub fn form_name(f: u32) -> &'static str {
         6 => "c :: p^ (deref of a pointer to s)",
         7 => "c :: `b: { if t { break `b s; } s }",
         9 => "c := first(id(s), id(literal)) (two register-returned aggregates alive in one expression)",
+        10 => "c := if t { s } else { s } (mutable)",
+        11 => "c := { s } (mutable)",
+        12 => "c := `b: { if t { break `b s; } s } (mutable)",
         _ => "c := literal; c = s",
     }
 }
@@ -159,6 +162,9 @@ impl Prog {
                         5 => format!("v{dst} :: {}({direct});", shape.id_fn()),
                         6 => format!("v{dst} :: {};", place(&self.vars, *src, path, true)),
                         7 => format!("v{dst} :: `b{dst}: {{ if t {{ break `b{dst} {direct}; }} {direct} }};"),
+                        10 => format!("v{dst} := if t {{ {direct} }} else {{ {direct} }};"),
+                        11 => format!("v{dst} := {{ {direct} }};"),
+                        12 => format!("v{dst} := `b{dst}: {{ if t {{ break `b{dst} {direct}; }} {direct} }};"),
                         9 => {
                             let other = vec![77i64; shape.len()];
                             format!("v{dst} := {}({}({direct}), {}({}));", shape.first_fn(), shape.id_fn(), shape.id_fn(), shape.literal(&other))
@@ -295,7 +301,7 @@ fn gen(rng: &mut Rng, rep: &mut Report) -> Prog {
             let subs = vars[src].shape.subs();
             let sub = rng.below(subs.len() as u64) as usize;
             let form = rng.below(N_FORMS as u64) as u32;
-            let mutable = matches!(form, 0 | 2 | 8 | 9);
+            let mutable = matches!(form, 0 | 2 | 8 | 9 | 10 | 11 | 12);
             vars.push(Var { shape: subs[sub].1, mutable });
             rep.hit(&format!("copy-form:{}", form_name(form)));
             rep.hit(if sub == 0 { "copy-source:whole-variable" } else { "copy-source:field-or-element" });
@@ -381,8 +387,8 @@ fn corpus() -> Vec<Prog> {
     for form in 0..N_FORMS {
         let vars = vec![
             Var { shape: Shape::W, mutable: true },
-            Var { shape: Shape::W, mutable: matches!(form, 0 | 2 | 8) },
-            Var { shape: Shape::Pt, mutable: matches!(form, 0 | 2 | 8) },
+            Var { shape: Shape::W, mutable: matches!(form, 0 | 2 | 8 | 9 | 10 | 11 | 12) },
+            Var { shape: Shape::Pt, mutable: matches!(form, 0 | 2 | 8 | 9 | 10 | 11 | 12) },
         ];
         let mut ops = vec![
             Op::Init { x: 0, cells: vec![7, 1, 2, 9] },
@@ -392,6 +398,11 @@ fn corpus() -> Vec<Prog> {
             Op::Set { x: 0, leaf: 2, v: 200, how: 1 },
             Op::Set { x: 0, leaf: 0, v: 77, how: 2 },
         ];
+        if vars[1].mutable {
+            // writes to the copies must not reach the source either
+            ops.push(Op::Set { x: 1, leaf: 3, v: 55, how: 0 });
+            ops.push(Op::Set { x: 2, leaf: 0, v: 66, how: 0 });
+        }
         for x in 0..3usize {
             for leaf in 0..vars[x].shape.len() {
                 ops.push(Op::Obs { x, leaf });
